@@ -6,6 +6,7 @@
 //!
 //! Input lines:
 //!   D|<key>|<seed>                     differential case for operator <key>
+//!   F|<key>|<seed>                     the same with inexact f32 operand values
 //!   B|<op>|<dt>|<sa>|<sb>|<seed>       Add/Sub/Mul on explicit shapes (compared with the model)
 use rten::{Value, ValueView};
 use rten_tensor::prelude::*;
@@ -69,11 +70,41 @@ fn generate(seed: u64, n: usize, tier: &str, csv: &str, out: &mut impl Write) {
         }
     }
     let total: u64 = targets.iter().map(|t| t.1).sum();
-    for _ in 0..n {
+    for _ in 0..n - n / 4 {
         let mut x = rng.below(total);
         for (k, w) in &targets {
             if x < *w {
                 writeln!(out, "D|{}|{}", k, rng.next() >> 16).unwrap();
+                break;
+            }
+            x -= w;
+        }
+    }
+    // F lines: the same differential on f32 operands whose sums / products / reciprocals are NOT
+    // exactly representable (thirds, tenths, 7, 10, pi, large, small and subnormal magnitudes,
+    // single-element second operands): the property demands bit identity there too
+    let fkeys: Vec<(String, u64)> = targets
+        .iter()
+        // (integer-only operators are skipped; so is the attention family, whose last-bit dependence
+        // on the KV-cache strides is the recorded known finding F61 and grows with inexact operands)
+        .filter(|(k, _)| {
+            !["Not", "And", "Or", "Xor", "SequenceInsert", "SequenceErase", "Attention", "com.microsoft/MultiHeadAttention", "com.microsoft/GroupQueryAttention"]
+                .contains(&k.as_str())
+        })
+        .map(|(k, _)| {
+            let w = if k == "Div" { 10 } else if ["Add", "Sub", "Mul", "Pow", "TI:Add", "TI:Sub", "TI:Mul"].contains(&k.as_str()) { 5 } else { 1 };
+            (k.clone(), w)
+        })
+        .collect();
+    let ftotal: u64 = fkeys.iter().map(|t| t.1).sum();
+    for (k, _) in &fkeys {
+        writeln!(out, "F|{}|{}", k, rng.next() >> 16).unwrap();
+    }
+    for _ in 0..n / 3 {
+        let mut x = rng.below(ftotal.max(1));
+        for (k, w) in &fkeys {
+            if x < *w {
+                writeln!(out, "F|{}|{}", k, rng.next() >> 16).unwrap();
                 break;
             }
             x -= w;
@@ -298,6 +329,12 @@ fn exec_line(line: &str) -> String {
     let parts: Vec<&str> = line.split('|').collect();
     let (tag, term) = match parts[0] {
         "D" => exec_diff(parts[1], parts[2].parse().unwrap()),
+        "F" => {
+            set_inexact_floats(true);
+            let (tag, term) = exec_diff(parts[1], parts[2].parse().unwrap());
+            set_inexact_floats(false);
+            (if tag.starts_with("trivial") { tag } else { format!("inexact:{}", tag) }, term)
+        }
         "B" => exec_bin(parts[1], parts[2], &parse_shape(parts[3]), &parse_shape(parts[4]), parts[5].parse().unwrap()),
         _ => ("trivial-bad-line".to_string(), "Diff \"?\" \"bad line\" (OErr \"line\") []".to_string()),
     };
